@@ -37,6 +37,7 @@ type Check struct {
 	Finalize   func(c *Ctx, merged *Result)           // parent-side cross-shard checks (optional)
 	Collapse   bool                                   // violations of one clause collapse into the shortest signature (history searches)
 	Journal    bool                                   // workers journal the case they are about to run; a worker that dies is attributed and resumed
+	StallS     int                                    // watchdog period in seconds (0 = 120)
 	MemLimit   int64                                  // address-space limit of a worker in bytes (0 = none)
 	JournalSig func(raw json.RawMessage) string       // signature suffix for a case attributed through the journal
 	TimeQuick  time.Duration
@@ -269,8 +270,11 @@ func budget(ck *Check, tier string) time.Duration {
 
 // watchdog: the only wall-clock element. An execution that does not reach a gate for a long
 // time is an infinite loop in the program (or a real block): a stall verdict for CurrentCase.
-func startWatchdog(onStall func(cs string)) {
+func startWatchdog(stallS int, onStall func(cs string)) {
 	limit := 120 * time.Second
+	if stallS > 0 {
+		limit = time.Duration(stallS) * time.Second
+	}
 	if v := os.Getenv("VERIF_STALL_S"); v != "" {
 		if n, err := strconv.Atoi(v); err == nil {
 			limit = time.Duration(n) * time.Second
@@ -329,7 +333,7 @@ func runWorker(id, tier string, i, n int, out string) int {
 		b, _ := json.Marshal(c.Res)
 		os.WriteFile(out, b, 0644)
 	}
-	startWatchdog(func(cs string) {
+	startWatchdog(ck.StallS, func(cs string) {
 		c.Violate("stall", "stall", "execution made no progress for the watchdog period (infinite loop or real block) in case: "+cs, map[string]string{"stalled_case": cs})
 		write()
 		fmt.Fprintf(os.Stderr, "worker %d: STALL in case %s\n", i, cs)
